@@ -1,7 +1,87 @@
 import Cherab.Drv.Proto
-open Cherab.Drv
+import Cherab.Model.RayTransfer
+open Cherab.Drv Cherab.RayTransfer
 
-/-- C10 driver: not yet implemented (echo) -/
+/-- integer mantissa and exponent of a positive finite double: `x = m * 2^e` exactly -/
+def mantExp (x : Float) : Nat × Int :=
+  let (m, e) := x.frExp
+  ((m.scaleB 53).toUInt64.toNat, e - 53)
+
+/-- C `fmod` (exact remainder of truncated division, sign of the dividend), computed in integer arithmetic -/
+def fmodF (x p : Float) : Float :=
+  if x.isNaN || p.isNaN || x.isInf || p == 0 then 0.0 / 0.0
+  else if p.isInf || x == 0 then x
+  else
+    let (mx, ex) := mantExp x.abs
+    let (mp, ep) := mantExp p.abs
+    let e := min ex ep
+    let X := mx <<< (ex - e).toNat
+    let P := mp <<< (ep - e).toNat
+    let r := (Float.ofNat (X % P)).scaleB e
+    if x < 0 then -r else r
+
+/-- C cast `<int>double` for values in int range: truncation towards zero -/
+def truncF (x : Float) : Int := x.toInt64.toInt
+
+def piF : Float := 3.14159265358979323846
+
+def ints (ts : List String) : List Int := ts.map pI
+
+def specOf (xs : Array Float) : Int → Float := fun j => if j < 0 then 0 else xs.getD j.toNat 0
+
+def showSpec (nb : Nat) (r : Option (Int → Float)) : String :=
+  match r with
+  | none => "IndexError"
+  | some s => "ok " ++ fFs ((List.range nb).map fun (j : Nat) => s (Int.ofNat j))
+
+def step (ts : List String) : String :=
+  match ts with
+  | "cart" :: n0 :: n1 :: n2 :: nb :: ms :: rest =>
+      let (fs, rest) := takeF 10 rest
+      match fs with
+      | [dx, dy, dz, st, sx, sy, sz, ex, ey, ez] =>
+        let ncell := pN n0 * pN n1 * pN n2
+        let vm : VMap := { n0 := pN n0, n1 := pN n1, n2 := pN n2, data := (ints (rest.take ncell)).toArray }
+        let spec0 := ((rest.drop ncell).map pF).toArray
+        showSpec (pN nb) (integrateCart truncF Float.sqrt vm.look (pN nb) dx dy dz st (pI ms) (specOf spec0)
+          { sx := sx, sy := sy, sz := sz, ex := ex, ey := ey, ez := ez })
+      | _ => "bad-op"
+  | "cyl" :: n0 :: n1 :: n2 :: nb :: ms :: rest =>
+      let (fs, rest) := takeF 12 rest
+      match fs with
+      | [dr, dphi, dz, rmin, period, st, sx, sy, sz, ex, ey, ez] =>
+        let ncell := pN n0 * pN n1 * pN n2
+        let vm : VMap := { n0 := pN n0, n1 := pN n1, n2 := pN n2, data := (ints (rest.take ncell)).toArray }
+        let spec0 := ((rest.drop ncell).map pF).toArray
+        showSpec (pN nb) (integrateCyl truncF Float.sqrt Float.atan2 fmodF piF vm.look (pN nb) (pN n1)
+          dr dphi dz rmin period st (pI ms) (specOf spec0)
+          { sx := sx, sy := sy, sz := sz, ex := ex, ey := ey, ez := ez })
+      | _ => "bad-op"
+  | "plan" :: ms :: rest =>
+      match rest.map pF with
+      | [st, sx, sy, sz, ex, ey, ez] =>
+        match plan truncF Float.sqrt st (pI ms) { sx := sx, sy := sy, sz := sz, ex := ex, ey := ey, ez := ez } with
+        | none => "short"
+        | some p => s!"{p.n} {fFs [p.dt, p.ux, p.uy, p.uz]}"
+      | _ => "bad-op"
+  | "mask" :: bs =>
+      let vm := mapFromMask (bs.map pB)
+      match bins vm with
+      | none => "ValueError"
+      | some b => s!"{b} " ++ " ".intercalate (vm.map toString)
+  | "vbins" :: vs =>
+      match bins (ints vs) with
+      | none => "ValueError"
+      | some b => s!"{b} " ++ " ".intercalate ((maskOf (ints vs)).map fB)
+  | ["boxgeom", xm, ym, zm, nx, ny, nz] =>
+      let g : BoxGeom Float := boxGeom (pF xm) (pF ym) (pF zm) (pN nx) (pN ny) (pN nz)
+      fFs [g.dx, g.dy, g.dz, g.step, g.ux, g.uy, g.uz]
+  | ["cylgeom", ro, h, nr, nz, ri, np, per] =>
+      let g : CylGeom Float := cylGeom (pF ro) (pF h) (pN nr) (pN nz) (pF ri) (pN np) (pF per)
+      fFs [g.dr, g.dphi, g.dz, g.step, g.rOuter, g.rInner, g.height]
+  | ["fmod", x, p] => fF (fmodF (pF x) (pF p))
+  | _ => "bad-op"
+
 def main : IO UInt32 := do
-  loop (stateless fun ts => " ".intercalate ts) (← IO.getStdin) (← IO.getStdout) ()
+  loop (stateless step) (← IO.getStdin) (← IO.getStdout) ()
   return 0
